@@ -59,7 +59,7 @@ inline std::string gen_scenario(const unsigned char *data, size_t size, const st
   if (c.chance(1, 10)) addflag("NOCHECKRESP");
   if ((pf.search && c.chance(1, 6)) || prop == "C08") addflag("NOSEARCH");   // C08 is about the cache key of the name as given
   if (pf.search && c.chance(1, 8)) addflag("NOALIASES");
-  int tries = 1 + (int)c.pick(4); if (pf.bigtries && c.chance(1, 4)) { static const int bt[] = {8, 17, 33, 64, 65, 70, 100}; tries = bt[c.pick(7)]; }
+  int tries = 1 + (int)c.pick(4); if (prop == "C12" && c.chance(1, 2)) tries = 1; if (pf.bigtries && c.chance(1, 4)) { static const int bt[] = {8, 17, 33, 64, 65, 70, 100}; tries = bt[c.pick(7)]; }
   static const int touts[] = {2000, 300, 1, 250, 251, 1000, 5000, 7000, 100000}; int timeout = touts[c.pick(9)];
   int maxt = c.chance(1, 3) ? (int)(std::max(timeout, 250) * (1 + c.pick(4))) : 0;
   o += "opt flags=" + (flags.empty() ? std::string("NONE") : flags) + " tries=" + std::to_string(tries) + " timeout=" + std::to_string(timeout) + " maxtimeout=" + std::to_string(maxt);
@@ -79,14 +79,15 @@ inline std::string gen_scenario(const unsigned char *data, size_t size, const st
   { static const char *lk[] = {"b", "bf", "fb", "f"}; if (pf.addr || c.chance(1, 6)) o += std::string(" lookups=") + lk[c.pick(4)]; }
   o += "\n";
   unsigned nserv = 1 + c.pick(pf.failover ? 5 : 3);
-  if (prop == "C20") nserv = 1;   // with several servers the choice of the next server depends on how replies are batched into reads, which segmentation legitimately changes
+  if (prop == "C20") nserv = 1;
+  if (prop == "C12" && tries == 1 && c.chance(2, 3)) nserv = 1;   // with several servers the choice of the next server depends on how replies are batched into reads, which segmentation legitimately changes
   o += "servers";
   for (unsigned i = 0; i < nserv; i++) { if (c.chance(1, 6)) o += " [fd00::" + std::to_string(i + 1) + "]:53"; else o += " 10.0.0." + std::to_string(i + 1) + (c.chance(1, 8) ? ":5353" : ""); }
   o += "\n";
   // ---- server behaviour
   {
-    static const char *ws[] = {"answer=6 nxdomain=1 nodata=1 servfail=1 silence=2 tc=1", "answer=1", "answer=3 silence=3", "answer=2 nxdomain_soa=2 nodata_soa=2 nxdomain=1 nodata=1", "answer=4 servfail=2 refused=1 notimp=1 formerr=1 formerr_opt=1", "answer=3 tc=2 garbage=1 empty=1 dup=1 delay=2", "silence=1", "answer=3 reset=1 eofmid=1 tc=2 silence=1", "answer=4 delay=3 dup=1", "answer=2 badcookie=2 silence=1", "answer=4 nxdomain=1 nodata_soa=1 tc=3 empty=2 dup=1 servfail=1", "answer=3 tc=2 empty=1"};
-    unsigned wi = c.pick(10); if (prop == "C06" && c.chance(1, 3)) wi = 6; if (prop == "C08" || prop == "C13") wi = c.chance(2, 3) ? 3 : 1; if (prop == "C12") wi = 3; if (prop == "C17") wi = c.chance(1, 2) ? 9 : 1; if (prop == "C20") wi = 10 + c.pick(2);
+    static const char *ws[] = {"answer=6 nxdomain=1 nodata=1 servfail=1 silence=2 tc=1", "answer=1", "answer=3 silence=3", "answer=2 nxdomain_soa=2 nodata_soa=2 nxdomain=1 nodata=1", "answer=4 servfail=2 refused=1 notimp=1 formerr=1 formerr_opt=1", "answer=3 tc=2 garbage=1 empty=1 dup=1 delay=2", "silence=1", "answer=3 reset=1 eofmid=1 tc=2 silence=1", "answer=4 delay=3 dup=1", "answer=2 badcookie=2 silence=1", "answer=4 nxdomain=1 nodata_soa=1 tc=3 empty=2 dup=1 servfail=1", "answer=3 tc=2 empty=1", "answer=2 nxdomain_soa=2 nodata_soa=1 nxdomain=1 nodata=1 servfail=2 refused=1"};
+    unsigned wi = c.pick(10); if (prop == "C06" && c.chance(1, 3)) wi = 6; if (prop == "C08" || prop == "C13") wi = c.chance(2, 3) ? 3 : 1; if (prop == "C12") wi = c.chance(1, 2) ? 3 : 12; if (prop == "C17") wi = c.chance(1, 2) ? 9 : 1; if (prop == "C20") wi = 10 + c.pick(2);
     o += std::string("weights ") + ws[wi] + "\n";
     unsigned nr = prop == "C20" ? 0 : c.pick(3);
     for (unsigned i = 0; i < nr; i++) o += "rule " + (c.chance(1, 2) ? std::string("*") : std::to_string(c.pick(nserv))) + " " + (c.chance(1, 2) ? std::string("*") : "r" + std::to_string(1 + c.pick(pf.max_reqs))) + " " + (c.chance(1, 2) ? std::string("*") : std::to_string(c.pick(3))) + " " + kOutcomeNames[c.pick(O__COUNT)] + "\n";
